@@ -26,11 +26,16 @@ class SimKeyboardInterrupt(KeyboardInterrupt):
     save is interrupted.  A subclass, so that the harness never swallows a real one."""
 
 
+class SimSystemExit(SystemExit):
+    """An injected sys.exit() (e.g. from a signal handler) in the middle of a save."""
+
+
 def _injected(kind="ENOSPC"):
     """The injected failure: OSError with a given errno, or another exception type by name."""
     other = {"ValueError": ValueError, "RuntimeError": RuntimeError, "MemoryError": MemoryError,
              "TypeError": TypeError, "KeyError": KeyError, "PermissionError": PermissionError,
-             "TimeoutError": TimeoutError, "KeyboardInterrupt": SimKeyboardInterrupt}
+             "TimeoutError": TimeoutError, "KeyboardInterrupt": SimKeyboardInterrupt,
+             "SystemExit": SimSystemExit}
     if kind in other:
         return other[kind](f"injected {kind}")
     code = getattr(errno, kind, errno.EIO)
